@@ -120,7 +120,7 @@ def prove(prop: str, tier: str) -> ProofReport:
     """Build `ArchSim.Props.<prop>`, audit the axioms of every theorem in it, grep its import closure."""
     # every file Props/<prop>.lean and Props/<prop><Suffix>.lean (e.g. C02Split, C13Toy) states obligations of <prop>
     pdir = LEAN / "ArchSim" / "Props"
-    paths = sorted(p for p in pdir.glob(f"{prop}*.lean") if re.fullmatch(prop + r"([A-Z][A-Za-z]*)?", p.stem))
+    paths = sorted(p for p in pdir.glob(f"{prop}*.lean") if re.fullmatch(prop + r"([A-Z][A-Za-z0-9]*)?", p.stem))
     mods = [f"ArchSim.Props.{p.stem}" for p in paths]
     mod = " ".join(mods)
     rep = ProofReport(module=mod, built=False)
